@@ -212,3 +212,163 @@ impl Scenario for YieldSql {
         })
     }
 }
+
+
+// ---------------------------------------------------------------------------------------
+// Operator-level plans over an endless non-cooperative leaf, protected only by the EnsureCooperative
+// rule (the SQL planner never builds some of these shapes, a user of the physical-plan API can:
+// a CoalescePartitionsExec over one partition, limits, unions and merges directly over a source).
+
+pub struct YieldPlan;
+
+fn gen_shape(rng: &mut Rng, depth: u64) -> Value {
+    if depth == 0 || rng.chance(1, 4) {
+        return json!({"op": "src", "parts": rng.range(1, 3)});
+    }
+    match rng.below(10) {
+        0 | 1 => json!({"op": "coalesce", "in": gen_shape(rng, depth - 1)}),
+        2 => json!({"op": "filter", "pass": rng.chance(1, 2), "in": gen_shape(rng, depth - 1)}),
+        3 => json!({"op": "proj", "in": gen_shape(rng, depth - 1)}),
+        4 => json!({"op": "rr", "n": rng.range(1, 4), "in": gen_shape(rng, depth - 1)}),
+        5 => json!({"op": "hash", "n": rng.range(1, 4), "in": gen_shape(rng, depth - 1)}),
+        6 => json!({"op": "limit", "in": gen_shape(rng, depth - 1)}),
+        7 => json!({"op": "union", "l": gen_shape(rng, depth - 1), "r": gen_shape(rng, depth - 1)}),
+        8 => json!({"op": "topk", "in": gen_shape(rng, depth - 1)}),
+        _ => json!({"op": "spm", "in": gen_shape(rng, depth - 1)}),
+    }
+}
+
+fn build_shape(v: &Value, table: &[Vec<crate::data::Step>], sources: &mut Vec<Arc<SimSourceExec>>) -> Option<Arc<dyn ExecutionPlan>> {
+    use datafusion_physical_expr::expressions::{BinaryExpr, lit};
+    use datafusion_physical_expr::{LexOrdering, PhysicalSortExpr};
+    use datafusion_physical_plan::coalesce_partitions::CoalescePartitionsExec;
+    use datafusion_physical_plan::filter::FilterExec;
+    use datafusion_physical_plan::limit::GlobalLimitExec;
+    use datafusion_physical_plan::projection::ProjectionExec;
+    use datafusion_physical_plan::sorts::sort::SortExec;
+    use datafusion_physical_plan::sorts::sort_preserving_merge::SortPreservingMergeExec;
+    use datafusion_physical_plan::union::UnionExec;
+    let schema = crate::data::table_schema();
+    let input = |sources: &mut Vec<Arc<SimSourceExec>>| build_shape(v.get("in")?, table, sources);
+    let order = || LexOrdering::new(vec![PhysicalSortExpr::new(col("v", &crate::data::table_schema()).unwrap(), Default::default())]);
+    Some(match v.get("op")?.as_str()? {
+        "src" => {
+            let n = (v.get("parts")?.as_u64()? as usize).clamp(1, 4);
+            // n partitions: the table's scripts repeated/cut to n
+            let scripts: Vec<Vec<crate::data::Step>> = (0..n).map(|i| table[i % table.len()].clone()).collect();
+            let src = Arc::new(SimSourceExec::with_ordering("endless", scripts, None, true));
+            sources.push(Arc::clone(&src));
+            src
+        }
+        "coalesce" => Arc::new(CoalescePartitionsExec::new(input(sources)?)),
+        "filter" => {
+            let bound = if v.get("pass")?.as_bool()? { 100_000i64 } else { -100_000 };
+            let pred = Arc::new(BinaryExpr::new(col("v", &schema).ok()?, datafusion_expr::Operator::Lt, lit(bound)));
+            Arc::new(FilterExec::try_new(pred, input(sources)?).ok()?)
+        }
+        "proj" => {
+            let exprs: Vec<(Arc<dyn datafusion_physical_expr::PhysicalExpr>, String)> =
+                ["id", "k", "s", "v"].iter().map(|c| (col(c, &schema).unwrap(), c.to_string())).collect();
+            Arc::new(ProjectionExec::try_new(exprs, input(sources)?).ok()?)
+        }
+        "rr" => Arc::new(RepartitionExec::try_new(input(sources)?, Partitioning::RoundRobinBatch((v.get("n")?.as_u64()? as usize).clamp(1, 8))).ok()?),
+        "hash" => Arc::new(
+            RepartitionExec::try_new(input(sources)?, Partitioning::Hash(vec![col("k", &schema).ok()?], (v.get("n")?.as_u64()? as usize).clamp(1, 8))).ok()?,
+        ),
+        "limit" => {
+            // a global limit needs one input partition
+            let i = input(sources)?;
+            let i: Arc<dyn ExecutionPlan> = if i.properties().partitioning.partition_count() > 1 { Arc::new(CoalescePartitionsExec::new(i)) } else { i };
+            Arc::new(GlobalLimitExec::new(i, 0, Some(1 << 40)))
+        }
+        "union" => UnionExec::try_new(vec![build_shape(v.get("l")?, table, sources)?, build_shape(v.get("r")?, table, sources)?]).ok()?,
+        "topk" => Arc::new(SortExec::new(order()?, input(sources)?).with_fetch(Some(3)).with_preserve_partitioning(true)),
+        "spm" => {
+            // per-partition top-k below a merge: nothing is emitted before the (endless) inputs end
+            let sorted = Arc::new(SortExec::new(order()?, input(sources)?).with_fetch(Some(3)).with_preserve_partitioning(true));
+            Arc::new(SortPreservingMergeExec::new(order()?, sorted))
+        }
+        _ => return None,
+    })
+}
+
+impl Scenario for YieldPlan {
+    fn name(&self) -> &'static str {
+        "c19-yield-plan"
+    }
+    fn generate(&self, rng: &mut Rng, _tier: Tier) -> Value {
+        json!({
+            "table": endless_table(rng, 3, false),
+            "shape": gen_shape(rng, 3),
+            "starve_top": rng.chance(1, 2),
+            "stop_after": *rng.pick(&[50u64, 300, 1500]),
+            "env": EnvSpec::generate(rng, false),
+        })
+    }
+    fn run(&self, case: Value) -> RunFuture {
+        Box::pin(async move {
+            use datafusion::physical_optimizer::PhysicalOptimizerRule;
+            let Some(table) = crate::data::parse_table(&case["table"]) else { return Outcome::Invalid };
+            let Some(env) = EnvSpec::parse(&case["env"]) else { return Outcome::Invalid };
+            let stop_after = case["stop_after"].as_u64().unwrap_or(300).min(20_000);
+            let ctx = env.build();
+            let mut sources = vec![];
+            let Some(mut plan) = build_shape(&case["shape"], &table, &mut sources) else { return Outcome::Invalid };
+            if sources.is_empty() || sources.len() > 8 {
+                return Outcome::Invalid;
+            }
+            if case["starve_top"].as_bool().unwrap_or(false) {
+                // a consumer that never sees a batch: nothing but the operators' own yielding gives the
+                // runtime a turn
+                let schema = plan.schema();
+                let Ok(v) = col("v", &schema) else { return Outcome::Invalid };
+                let pred = Arc::new(datafusion_physical_expr::expressions::BinaryExpr::new(v, datafusion_expr::Operator::Lt, datafusion_physical_expr::expressions::lit(-100_000i64)));
+                plan = match datafusion_physical_plan::filter::FilterExec::try_new(pred, plan) {
+                    Ok(f) => Arc::new(f),
+                    Err(_) => return Outcome::Invalid,
+                };
+            }
+            // the only protection: the EnsureCooperative rule, as the default optimizer applies it last
+            let plan = match datafusion::physical_optimizer::ensure_coop::EnsureCooperative::new().optimize(plan, ctx.task.session_config().options()) {
+                Ok(p) => p,
+                Err(e) => return violation("plan-error", format!("EnsureCooperative failed: {e}")),
+            };
+            if sqlsim::unprotected_noncooperative_leaf(&plan) {
+                sim::set_tag("noncooperative-leaf-below-cooperative-exchange");
+                sim::probe("probe.plan_with_unprotected_leaf");
+            }
+            if std::env::var_os("VERIF_DEBUG_PLAN").is_some() {
+                eprintln!("{}", datafusion_physical_plan::displayable(plan.as_ref()).indent(true));
+            }
+            let n_out = plan.properties().partitioning.partition_count();
+            let stats: Vec<Arc<SourceStats>> = sources.iter().map(|s| Arc::clone(&s.stats)).collect();
+            let mut hs = vec![];
+            for p in 0..n_out {
+                let plan = Arc::clone(&plan);
+                let task = Arc::clone(&ctx.task);
+                let st = stats.clone();
+                hs.push(SpawnedTask::spawn(async move {
+                    let s = plan.execute(p, task)?;
+                    Ok::<_, datafusion_common::DataFusionError>(
+                        read_until(s, move || st.iter().map(|x| x.batches.load(Ordering::Relaxed)).sum::<u64>() >= stop_after).await,
+                    )
+                }));
+            }
+            for h in hs {
+                match h.join().await {
+                    Ok(Ok(_)) => {}
+                    Ok(Err(e)) => return violation("unexpected-error", format!("{e}")),
+                    Err(e) => return violation("consumer-failed", format!("{e}")),
+                }
+            }
+            drop(plan);
+            sim::probe("probe.endless_query_dropped");
+            tokio::time::sleep(std::time::Duration::from_secs(3600)).await;
+            let refs: Vec<&Arc<SimSourceExec>> = sources.iter().collect();
+            if let Some(v) = ctx.quiescence_violation(&refs) {
+                return v;
+            }
+            Outcome::Pass
+        })
+    }
+}
